@@ -399,9 +399,17 @@ def _strip(dp):
 
 def run_ops(ops):
     # a leading ['cfg', 'ibgp'] selects an iBGP session (the REST API then adds the default LOCAL_PREF)
-    ibgp = bool(ops) and list(ops[0]) == ['cfg', 'ibgp']
+    # a leading ['cfg', 'seg', n]: every peer message arrives in n TCP segments
+    ops = [list(o) for o in ops]
+    ncfg = 0
+    while ncfg < len(ops) and ops[ncfg][0] == 'cfg':
+        ncfg += 1
+    ibgp = ['cfg', 'ibgp'] in ops[:ncfg]
     run = Run(ibgp=ibgp)
-    for op in (ops[1:] if ibgp else ops):
+    for o in ops[:ncfg]:
+        if o[1] == 'seg':
+            run.sim.reactor.segments = o[2]
+    for op in ops[ncfg:]:
         res = run.step(list(op))
         if res:
             return run, [f for f in res if not f[0].startswith('harness:')]
@@ -466,7 +474,7 @@ def run_shard(spec, seed, col, tier):
         col.case({'ops': ops}, run.nontrivial, labels=['history', 'len-%d' % (len(ops) // 10 * 10)])
         for sig, detail in res:
             col.fail(sig, {'ops': ops}, detail)
-    hyp_run(col, st.tuples(st.sampled_from([[], [], [['cfg', 'ibgp']]]), st.lists(op_strategy, min_size=3, max_size=spec['steps'])).map(
+    hyp_run(col, st.tuples(st.sampled_from([[], [], [['cfg', 'ibgp']], [['cfg', 'seg', 3]], [['cfg', 'ibgp'], ['cfg', 'seg', 2]]]), st.lists(op_strategy, min_size=3, max_size=spec['steps'])).map(
         lambda t: t[0] + t[1]), body, seed, spec['examples'])
 
 
